@@ -94,6 +94,9 @@ ReadHeader(avail, fault, obs) ==
     /\ rpos' = rpos + obs.n
     /\ UNCHANGED <<wire, good>>
 
+\* read the same stream again from its start (a fresh reader over the same bytes)
+Rewind == rpos' = 0 /\ UNCHANGED <<wire, good>>
+
 \* a fresh stream with given bytes
 Stream(bytes) == wire' = bytes /\ rpos' = 0 /\ good' = {}
 ======================================================================
